@@ -85,8 +85,13 @@ func (p Path) HasPrefixText(prefix string) bool {
 // The basic unit of comparison is a path component, not a character.
 func (p Path) HasPrefixPath(prefix Path) bool {
 	// Handle the simple case first, without any memory allocations.
-	if hasPrefix(string(p), string(prefix)) {
-		return len(p) == len(prefix) || p[len(prefix)] == '/'
+	if hasPrefix(string(p), string(prefix)) &&
+		(len(p) == len(prefix) || p[len(prefix)] == '/') {
+		return true
+	}
+
+	if prefix.IsEmpty() {
+		return false
 	}
 
 	if prefix == "." {
